@@ -191,6 +191,12 @@ func arrayBoundSites(p *Program, fns []*ssa.Function) ([]arrayBoundSite, int) {
 						if int64(w)-1+c > n-1 {
 							out = append(out, arrayBoundSite{f, x.Pos(), fmt.Sprintf("the loop runs once per set bit of a value that can have %d significant bits, so the index reaches %d; the array has %d elements", w, int64(w)-1+c, n)})
 						}
+						return
+					}
+					// no guard either: a counter of a loop that ends only when the data says so
+					if unboundedCounter(base) {
+						judged++
+						out = append(out, arrayBoundSite{f, x.Pos(), fmt.Sprintf("the index counts the iterations of a loop none of whose exits compares a counter with a bound (it runs as long as the data says), and nothing compares the index with the %d elements of the array", n)})
 					}
 					return
 				}
@@ -227,7 +233,7 @@ func controlArrayBound(fx *Program, r *Report, rule string) {
 	for _, tc := range []struct {
 		fn   string
 		want bool
-	}{{"SmallWrong", true}, {"SmallRight", false}, {"IndexWrong", true}, {"IndexRight", false}, {"PopWrong", true}, {"PopRight", false}} {
+	}{{"SmallWrong", true}, {"SmallRight", false}, {"IndexWrong", true}, {"IndexRight", false}, {"PopWrong", true}, {"PopRight", false}, {"CounterWrong", true}, {"CounterRight", false}} {
 		f := pkg.Func(tc.fn)
 		if f == nil {
 			r.Control(rule, "arraybound."+tc.fn, false, "function not found")
@@ -453,4 +459,121 @@ func popcountLoopBound(p *Program, idx ssa.Value, b *ssa.BasicBlock) (int, bool)
 		return 0, false
 	}
 	return widthOf(p, init, nil, 0, map[ssa.Value]bool{}), true
+}
+
+// unboundedCounter: v is a loop-header phi that starts at a constant and grows by a positive constant on
+// every way round the loop, and no exit of that loop is decided by a comparison on such a counter (so the
+// number of iterations is whatever the data makes it: a descent that goes on until a leaf is reached).
+func unboundedCounter(v ssa.Value) bool {
+	ph, ok := v.(*ssa.Phi)
+	if !ok {
+		return false
+	}
+	H := ph.Block()
+	constStep := func(q *ssa.Phi) bool {
+		inits, steps := 0, 0
+		for _, ed := range q.Edges {
+			if _, isK := constInt(ed); isK {
+				inits++
+				continue
+			}
+			okStep := false
+			cands := []ssa.Value{ed}
+			if p2, isPhi := ed.(*ssa.Phi); isPhi && p2 != q {
+				cands = p2.Edges
+			}
+			okStep = true
+			for _, cnd := range cands {
+				if cnd == ssa.Value(q) {
+					continue
+				}
+				bo, isBo := cnd.(*ssa.BinOp)
+				if !isBo || (bo.Op != token.ADD && bo.Op != token.SUB) || bo.X != ssa.Value(q) {
+					okStep = false
+					break
+				}
+				if k, isK := constInt(bo.Y); !isK || k <= 0 {
+					okStep = false
+					break
+				}
+			}
+			if !okStep {
+				return false
+			}
+			steps++
+		}
+		return inits >= 1 && steps >= 1
+	}
+	if !constStep(ph) {
+		return false
+	}
+	// the natural loop of H
+	inLoop := map[*ssa.BasicBlock]bool{H: true}
+	var stack []*ssa.BasicBlock
+	for _, pr := range H.Preds {
+		if H.Dominates(pr) && !inLoop[pr] {
+			inLoop[pr] = true
+			stack = append(stack, pr)
+		}
+	}
+	if len(stack) == 0 && !func() bool {
+		for _, pr := range H.Preds {
+			if pr == H {
+				return true
+			}
+		}
+		return false
+	}() {
+		return false // not a loop header
+	}
+	for len(stack) > 0 {
+		b := stack[len(stack)-1]
+		stack = stack[:len(stack)-1]
+		for _, pr := range b.Preds {
+			if !inLoop[pr] && H.Dominates(pr) {
+				inLoop[pr] = true
+				stack = append(stack, pr)
+			}
+		}
+	}
+	strip := func(x ssa.Value) ssa.Value {
+		for {
+			if cv, ok := x.(*ssa.Convert); ok {
+				x = cv.X
+				continue
+			}
+			if bo, ok := x.(*ssa.BinOp); ok && (bo.Op == token.ADD || bo.Op == token.SUB) {
+				if _, isK := constInt(bo.Y); isK {
+					x = bo.X
+					continue
+				}
+			}
+			return x
+		}
+	}
+	for b := range inLoop {
+		iff, ok := lastInstr(b).(*ssa.If)
+		if !ok {
+			continue
+		}
+		leaves := false
+		for _, sc := range b.Succs {
+			if !inLoop[sc] {
+				leaves = true
+			}
+		}
+		if !leaves {
+			continue
+		}
+		_, cx, cy, _, ok := cmpOf(iff.Cond)
+		if !ok {
+			continue
+		}
+		for _, opd := range []ssa.Value{strip(cx), strip(cy)} {
+			if q, isPhi := opd.(*ssa.Phi); isPhi && q.Block() == H && constStep(q) {
+				return false // a counted loop
+			}
+		}
+	}
+	return true
 }
